@@ -263,6 +263,48 @@ def k_uid(t):
     return t % 7
 
 
+KEEP = ('var kr = 100..105; var km = {kr: "r"};\n'
+        'var kf = Fiber.new(|| { var g = Fiber.yield(1); try { print("kf body"); } finally { print("kf fin"); } return g; }); print(kf.call());\n'
+        'var kn = Fiber.new(|a| { try { print("kn " + a); } finally { print("kn fin"); } return 7; });\n'
+        'var ki = [1, 2, 3].iter(); ki.next();\n'
+        '#[constructor(new)] class KC { fn who(self) { return self.tag; } } var ko = KC.new(); ko.tag = "ko"; var kb = ko.who;\n')
+USE_KEPT = ('print(kr == 100..105); print(km.has_key(100..105)); print(km.get(100..105));\n'
+            'print(kf.call("again")); print(kf.has_finished());\nprint(kn.call("x"));\nprint(ki.next());\nprint(kb()); print(ko.who());\n')
+USE_KEPT_EXPECTED = "true|true|r|kf body|kf fin|again|true|kn x|kn fin|7|2|ko|ko"
+_PW = 'var PW = Fiber.new(|| { print("w: working"); Fiber.yield(1); try { print("w: done"); } finally { print("w fin"); } return "w ok"; });\n'
+_PW_NAMED = 'fn pw_body() { print("w: working"); Fiber.yield(1); try { print("w: done"); } finally { print("w fin"); } return "w ok"; }\n'
+
+
+def kept_histories():
+    """(a) Things with identity or suspended state made by an EARLIER successful snippet (a range and a map keyed by it, a suspended fiber,
+    a fiber not yet started, an iterator under way, an instance and a bound method) are used after every kind of failing snippet: they are
+    what they were.  (b) A fiber is started / resumed / created INSIDE the handler machinery of a snippet that then fails (a finally block
+    that runs because an exception propagates, a catch block that throws again, a finally that runs for a return), kept in a global, and
+    used by a later snippet: it runs as a fiber of its own.  Expected output by construction (`failuse:`)."""
+    out = []
+    rng = vlib.SplitMix(23)
+    by_kind = {}
+    tries = 0
+    while len(by_kind) < N_FAIL_KINDS and tries < 20000:
+        tries += 1
+        d, f, k = failing_snippet(rng, 3000 + tries % 7)
+        by_kind.setdefault(k, (d, f))
+    for k, (d, f) in sorted(by_kind.items()):
+        out.append(([KEEP, f, USE_KEPT, PROBE], [KEEP, d, USE_KEPT, PROBE], ["ok", "fail%d" % k, "failuse:" + USE_KEPT_EXPECTED, "probe"]))
+    inside = [
+        ("first-call-in-propagating-finally", _PW + 'try { throw "boom"; } finally { PW.call(); }\n', "w: done|w fin|w ok|true"),
+        ("resumed-in-propagating-finally", _PW + 'PW.call();\ntry { throw "boom"; } finally { print(PW.call()); }\n', "Cannot call a finished fiber.|true"),
+        ("first-call-in-catch-that-rethrows", _PW + 'try { throw "boom"; } catch e { PW.call(); throw e; }\n', "w: done|w fin|w ok|true"),
+        ("first-call-in-finally-for-a-return", _PW + 'fn leave() { try { return 1; } finally { PW.call(); nil + 1; } }\nleave();\n', "w: done|w fin|w ok|true"),
+        ("created-in-propagating-finally", 'var PW = nil;\n' + _PW_NAMED + 'try { throw "boom"; } finally { PW = Fiber.new(pw_body); PW.call(); }\n', "w: done|w fin|w ok|true"),
+        ("first-call-in-nested-propagating-finally", _PW + 'fn inner() { try { throw "deep"; } finally { PW.call(); } }\ntry { inner(); } finally { var pad = 1; }\n', "w: done|w fin|w ok|true"),
+    ]
+    use = 'try { print(PW.call()); } catch e { print(e.context); }\nprint(PW.has_finished());\n'
+    for name, failing, want in inside:
+        out.append(([PROBE, failing, use, PROBE], [PROBE, _PW, use, PROBE], ["probe", "fail-inside:" + name, "failuse:" + want, "probe-after-inside"]))
+    return out
+
+
 def steps_of(snips):
     out = ["M:%s:%s" % (vlib.hx(n), vlib.hx(s)) for n, s in MODULES.items()]
     for s in snips:
@@ -304,7 +346,7 @@ def correspondence(ctx, model_ok=True):
     failures = []
     broken = ["reuse model out of date: " + p for p in prologue_matches_source()]
     n_hist = 3600 if ctx.thorough else 1500
-    hists = [gen_history(rng.fork("h%d" % i)) for i in range(n_hist)] + repeated_histories() + first_probe_histories()
+    hists = [gen_history(rng.fork("h%d" % i)) for i in range(n_hist)] + repeated_histories() + first_probe_histories() + kept_histories()
     corpus = progs.corpus_dir("C15")
     kinds_seen = {}
     residue_obs = {}
@@ -365,7 +407,7 @@ def correspondence(ctx, model_ok=True):
             # (b) failing snippet vs its definitions: later non-failing snippets must print the same
             if len(oa) == len(ob):
                 for j, (sa, sb, kk) in enumerate(zip(oa, ob, kinds)):
-                    if kk.startswith("fail") or kk == "compile-error":
+                    if kk.startswith("fail") or kk == "compile-error" or kk == "probe-after-inside":
                         continue
                     ca, cb = progs.canon_step(sa), progs.canon_step(sb)
                     if ca != cb:
